@@ -39,7 +39,17 @@ def NSHARDS(tier):
 
 
 WORKER = os.path.join(boot.VERIF, "vlib", "c04_worker.py")
-ERR_SNIPPETS = ["(1).nonsense", "_u = 1 + 's'", "len()", "undefined_zz",
+ERR_SNIPPETS = [
+    # messages / types that list several names (order must not depend on the
+    # hash seed)
+    "def _kw(a): pass\n_kw(1, zeta=1, alpha=2, mid=3, beta=4)",
+    "def _u1(x: 'Union[int, float, str, bytes]', y: 'Optional[Union[bytearray, bytes, str]]' = None): return x",
+    "def _u2(x: 'Union[float, complex, int, str, None]') -> 'Union[int, float, str]': return x",
+    "def _mp(a, b, c, d): pass\n_mp()",
+    "class _Sl:\n  __slots__ = ('zeta', 'alpha', 'mid')\n  def __init__(self):\n    self.zeta = 1\n    self.alpha = 's'\n    self.mid = None",
+    "_dd = {'zeta': 1, 'alpha': 's', 'mid': None, 'beta': 2.5}\n_ss = {'zeta', 'alpha', 1, 2.5, None}",
+    "def _many(q):\n  if q == 1: return 1\n  if q == 2: return 's'\n  if q == 3: return 2.5\n  if q == 4: return b'b'\n  if q == 5: return None\n  return [q]",
+    "(1).nonsense", "_u = 1 + 's'", "len()", "undefined_zz",
                 "_t = ((1).aa, (2).bb)", "_v = ((1).aa, len())",
                 "def _br() -> int:\n  return 's'", "_am: int = 's'",
                 "def _wt(x: int): pass\n_wt('s')\n_wt(None)"]
@@ -144,9 +154,12 @@ def batch_strategy(nprogs):
       cfg = gen_py.Cfg.everything(annotations=0.3, n_stmts=(4, 10))
       p = draw(gen_py.program(cfg))
       stmts = list(p["stmts"])
-      for e in draw(st.lists(st.sampled_from(ERR_SNIPPETS), max_size=3)):
+      for e in draw(st.lists(st.sampled_from(ERR_SNIPPETS), max_size=5,
+                             unique=True)):
         stmts.insert(draw(st.integers(0, len(stmts))), e)
-      out.append("\n".join(list(p["header"]) + stmts) + "\n")
+      hdr = [h for h in p["header"] if not h.startswith("from typing")]
+      out.append("\n".join(["from typing import Optional, Union"] + hdr +
+                           stmts) + "\n")
     return out, draw(st.integers(0, 10**6))
 
   return batches()
